@@ -131,7 +131,18 @@ def run_listby(case, ctx):
         # the same table object after a key column was reassigned in place: nothing remembered from the first call may leak
         c0 = keys[0]
         col = list(d[c0])
-        d[c0] = col[1:] + col[:1]
+        via = case.get('phase2_via') or 'item'
+        if via == 'update':
+            d.update({c0: col[1:] + col[:1]})
+        elif via == 'ior':
+            d |= {c0: col[1:] + col[:1]}
+        elif via == 'update_table':
+            d.update(dictable({c0: col[1:] + col[:1]}))         # the new key column handed over as a table of the same length
+        elif via == 'ior_table':
+            d |= dictable({c0: col[1:] + col[:1]})
+        else:
+            d[c0] = col[1:] + col[:1]
+        ctx.cls('key_reassigned_via:%s' % via)
         rows2 = [dict(r) for r in d]
         g2 = groups(rows2, keys)
         if how == 'listby':
@@ -220,6 +231,17 @@ def run_pivot(case, ctx):
             got = collections.Counter(rowkey(dict(r)) for r in up if r['z'] is not None)
             ok2 = got == exp and len(up) == len(gx) * len(labels)
         ctx.check('unpivot_roundtrip', ok2, lambda: 'unpivot(pivot) = %s\nexpected non-None cells %s' % ([dict(r) for r in up] if st2 == 'ok' else up, sorted(exp)))
+        if ok2 and len(labels):
+            # the y columns named explicitly, {y name: [label columns]}; the same dict object serves two calls (two pivots of one table are unpivoted with one description)
+            ydesc = {'y': [c for c in pv.keys() if c not in x]}
+            keep_desc = {'y': list(ydesc['y'])}
+            for rep in range(2):
+                st3, up3 = ctx.call(pv.unpivot, xarg, ydesc, 'z')
+                ok3 = st3 == 'ok' and type(up3) is dictable and sorted(up3.keys()) == sorted(x + ['y', 'z']) and ydesc == keep_desc
+                if ok3:
+                    ok3 = collections.Counter(rowkey(dict(r)) for r in up3 if r['z'] is not None) == exp and len(up3) == len(gx) * len(labels)
+                if not ctx.check('unpivot_roundtrip', ok3, lambda: 'unpivot(x, {y: label columns}, z), call %d with the same description object %r (was %r) = %s' % (rep + 1, ydesc, keep_desc, [dict(r) for r in up3] if st3 == 'ok' else up3)):
+                    break
     if len(gx) >= 2 and any(len(rs) >= 2 for _, rs in gx):
         ctx.mark_nontrivial(case)
     ctx.cls('pivot:agg=%s' % (agg,))
@@ -263,6 +285,7 @@ def gen_case(rng):
             cols[c] = gen.cells(rng, n, nan=0.1)
     cols['id'] = list(range(n))
     case = {'how': how, 'cols': cols, 'keys': keys, 'star': rng.random() < 0.7, 'phase2': rng.random() < 0.3}
+    case['phase2_via'] = rng.choice(['item', 'item', 'update', 'ior', 'update_table', 'ior_table'])
     if how == 'groupby' and rng.random() < 0.3:
         case['grp'] = rng.choice(['sub', 'g2', 'rows'])
     return case
